@@ -5,9 +5,10 @@
 (*   {"ev":"addr","id":..,"valid":0/1,"hc":[16 digits],"hp":[16 digits],   *)
 (*    "N":..,"ranges":[[from,to],..],"depth":..,"fpl":..,                   *)
 (*    "srv":[..],"sdk":[..],"route":[..],"loc":[{panic,island,levels,leaf}]}*)
-(* srv / sdk / route / loc hold the DISTINCT results of repeated calls on   *)
-(* fresh name objects: each of them must be the answer of the spec, so two *)
-(* different results for one query are rejected (determinism).             *)
+(* srv / sdk / route / loc hold the DISTINCT results over all construction *)
+(* routes of the name ("routes" lists them; Naming!Routes is demanded):    *)
+(* each must be the answer of the spec, so two different results for one   *)
+(* query - from two routes or two calls - are rejected.                    *)
 (***************************************************************************)
 EXTENDS Naming, Json, IOUtils
 
@@ -27,6 +28,7 @@ QueryOf(e) == [canon |-> e.id, valid |-> e.valid, hc |-> e.hc, hp |-> e.hp,
 TrAddr ==
   /\ l <= Len(Trace) /\ Trace[l].ev = "addr" /\ l' = l + 1
   /\ LET e == Trace[l] IN
+     /\ Range(e.routes) = Routes(e.valid)          \* the line was taken through every construction route
      /\ Address(QueryOf(e))
      /\ Range(e.srv) = {out'.srv}
      /\ Range(e.sdk) = {out'.sdk}
